@@ -249,11 +249,73 @@ def build(carrier, name, ds):
     return doc, checks
 
 
-CARRIERS = ["table", "table_doc", "frame_nested", "named_range", "named_range_table", "style", "style_auto", "bookmark", "bookmark_api", "refmark", "frame", "draw_page", "variable",
+CARRIERS = ["table", "table_doc", "frame_nested", "annotation_auto", "named_range", "named_range_table", "style", "style_auto", "bookmark", "bookmark_api", "refmark", "frame", "draw_page", "variable",
             "user_field", "note", "annotation", "link", "section", "change", "manifest", "meta"]
 
 
+def run_auto_names(case, ctx):
+    """identifiers generated by the API itself (annotations without a given name): unique, and found again, wherever the
+    paragraphs were when they were annotated (in the body, or in a container built first and attached afterwards)"""
+    from odfdo import Document, Paragraph, Section
+
+    name = case["name"]
+    with ctx.guard(("C14", "annotation_auto", "exception"), case):
+        doc = Document("text")
+        body = doc.body
+        body.clear()
+        first = Paragraph("one two three")
+        body.append(first)
+        anns = []
+        try:
+            section = Section(name=name)
+        except (ValueError, TypeError):
+            ctx.count("rejected-by-setter:annotation_auto")
+            return
+        paras = [Paragraph(f"alpha{i} beta{i} gamma{i}") for i in range(1, 4)]
+        for p_ in paras:
+            section.append(p_)
+        if len(name) % 2:
+            body.append(section)  # annotated after being attached
+        for i, p_ in enumerate(paras, 1):
+            anns.append(p_.insert_annotation(content=f"beta{i}", body=f"body{i}", creator=f"c{i}"))
+        if not len(name) % 2:
+            body.append(section)  # built first, attached afterwards
+            ctx.count("auto-names-in-detached-container")
+        # one more in the body, once everything is attached (a name generated inside a detached container cannot know the
+        # names of the document it will join: that order is not exercised)
+        anns.insert(0, first.insert_annotation(content="two", body="body0", creator="c0"))
+        names = [a.name for a in anns]
+        ctx.nontrivial(("annotation_auto", name))
+
+        def judge(d, phase):
+            ctx.check(len(set(names)) == len(names) and all(names), ("C14", "annotation_auto", "generated-names-collide"),
+                      f"generated annotation names {names!r} ({phase})", case)
+            for i, n in enumerate(names):
+                for holder, hname in ((d.body, "body"), (d.body.get_sections()[0], "section")):
+                    if hname == "section" and i == 0:
+                        continue
+                    got = holder.get_annotation(name=n)
+                    ok = got is not None and got.creator == f"c{i}" and f"body{i}" in got.note_body
+                    ctx.check(ok, ("C14", "annotation_auto", "wrong-object", "get_annotation(name=)"),
+                              f"{hname}.get_annotation(name={n!r}) returned {None if got is None else (got.creator, got.note_body)!r}, "
+                              f"stored under that name: ('c{i}', 'body{i}') ({phase})", case)
+                    end = holder.get_annotation_end(name=n)
+                    ctx.check(end is not None and end.name == n, ("C14", "annotation_auto", "wrong-object", "get_annotation_end(name=)"),
+                              f"{hname}.get_annotation_end(name={n!r}) -> {None if end is None else end.name!r} ({phase})", case)
+            listed = sorted(d.body.get_office_names())
+            ctx.check(listed == sorted(set(names)), ("C14", "annotation_auto", "wrong-object", "get_office_names"),
+                      f"body.get_office_names() = {listed!r}, annotations carry {sorted(names)!r} ({phase})", case)
+
+        judge(doc, "in memory")
+        buf = io.BytesIO()
+        doc.save(buf)
+        buf.seek(0)
+        judge(Document(buf), "after save+reload")
+
+
 def run_case(case, ctx):
+    if case["carrier"] == "annotation_auto":
+        return run_auto_names(case, ctx)
     carrier, name = case["carrier"], case["name"]
     if carrier in ("table", "table_doc", "named_range", "named_range_table"):
         # these setters store the stripped name: the stored form is the identifier
